@@ -261,7 +261,16 @@ func ruleC16Foreign(p *Prog, a *Anchors, r *Report) {
 					callee := c.Common().StaticCallee()
 					dyn := callee == nil
 					if dyn {
-						if _, isBuiltin := c.Common().Value.(*ssa.Builtin); isBuiltin {
+						// registered code is a function value the engine keeps somewhere (a field of a registry entry or
+						// of a compiled node, a map element): loaded from memory. A function handed in as a parameter
+						// (parseLogicalChain(p.parseAndExpression, …)) or a closure built here is the engine's own code.
+						switch v := c.Common().Value.(type) {
+						case *ssa.UnOp:
+							if v.Op != token.MUL {
+								continue
+							}
+						case *ssa.Lookup, *ssa.Extract, *ssa.Field, *ssa.Index:
+						default:
 							continue
 						}
 					} else if !relay[callee] {
